@@ -953,3 +953,95 @@ def check_C12(run):
 
 
 CHECKS["C12"] = check_C12
+
+
+# ============================================================================= C16
+
+ABORT_MSG = "Conductor's execution has been aborted by the user."
+
+
+def abort_violations(scn, op, before, snap, inv):
+    """what must hold after SIGINT/SIGTERM reached `cond run` (DESIGN.md C16)"""
+    probs = []
+    sent = [e for e in inv.trace if e[0] == "sigsent"]
+    if not sent:
+        return probs, False
+    ev = sent[0]
+    live = list(ev[4])
+    where = ev[3]
+    in_del = bool(ev[5]) if len(ev) > 5 else False
+    ti_sent = inv.trace.index(ev)
+    ti_done = next((j for j, e in enumerate(inv.trace) if e[0] == "main_done"), len(inv.trace))
+    termed = {e[1] for e in inv.trace if e[0] == "kill" and e[2] == "SIGTERM" and e[3] == "group"}
+    exited_before_end = {e[1] for j, e in enumerate(inv.trace) if e[0] == "exit" and j < ti_done}
+    # launch window of a process: from its spawn until the main thread next prints a status line or
+    # blocks (by then the executor has registered it)
+    in_launch = set()
+    for j in range(ti_sent - 1, -1, -1):
+        e = inv.trace[j]
+        if e[0] in ("blk", "out"):
+            break
+        if e[0] == "spawn":
+            in_launch.add(e[1])
+    swallowed = in_del
+    for name in live:
+        if name in termed or name in exited_before_end:
+            continue
+        tag = "[process-being-launched]" if name in in_launch else "[registered-process]"
+        probs.append(("running-task-left-running-without-SIGTERM " + tag, {"process": name, "live": live}))
+    spawned_after = [e[1] for e in inv.trace[ti_sent:ti_done] if e[0] == "spawn"]
+    for name in spawned_after:
+        if name not in termed and name not in exited_before_end:
+            probs.append(("task-started-after-the-interrupt-and-left-running", {"process": name}))
+    # nothing unfinished is recorded
+    rows_b = {tuple(r) for r in (before["rows"] if before and isinstance(before["rows"], list) else [])}
+    rows_a = snap["rows"] if isinstance(snap["rows"], list) else []
+    ok = I.successful_execs(inv.trace)
+    for r in rows_a:
+        if tuple(r) in rows_b:
+            continue
+        if not any(n.rsplit("#", 1)[0] == r[0] for n in ok):
+            probs.append(("version-recorded-for-unfinished-task", {"row": list(r)}))
+    # aborted, not an internal error
+    err = inv.err.decode("utf-8", "replace")
+    tag = " [signal-arrived-inside-a-destructor]" if in_del else ""
+    if inv.deadlock is not None:
+        probs.append(("hang-after-interrupt" + tag, {"blocked": inv.deadlock}))
+    elif inv.internal is not None:
+        probs.append(("internal-error-instead-of-abort %s at %s%s" % (inv.internal[0], inv.internal[1], tag),
+                      {"internal": list(inv.internal)[:3]}))
+    elif inv.code == 0:
+        probs.append(("interrupt-ignored-exit-0" + tag, {"spawned_after": spawned_after}))
+    elif ABORT_MSG not in err:
+        probs.append(("exit-nonzero-but-not-reported-as-abort" + tag, {"err": err[-300:]}))
+    if inv.exit_hang:
+        probs.append(("process-exit-blocked-by-unfinished-tee-threads", {}))
+    return [(what + " window=" + str(where), det) for what, det in probs], True
+
+
+def check_C16(run):
+    V, facts = [], {"nontrivial": [], "reach": {}, "evaluations": 0}
+    reach = facts["reach"]
+    # random single signals inside ordinary histories
+    for i, st in run_steps(run):
+        if st.op.get("signal") and st.before is not None and st.after is not None and not st.inv.killed:
+            probs, fired = abort_violations(run.scn, st.op, st.before, st.after, st.inv)
+            for sig, det in probs:
+                V.append(Violation("C16", sig, det, i))
+    for rec in getattr(run, "enum", []):
+        facts["evaluations"] += 1
+        if rec.get("fired"):
+            facts["nontrivial"].append("sig@%s/%d" % (rec["where"], rec.get("inflight", 0)))
+            nfl = rec.get("inflight", 0)
+            key = "abort_with_%s_in_flight" % ("0" if nfl == 0 else "1" if nfl == 1 else "2plus")
+            reach[key] = reach.get(key, 0) + 1
+            reach["signals_delivered"] = reach.get("signals_delivered", 0) + 1
+            reach["SIG" + rec["sig"]] = reach.get("SIG" + rec["sig"], 0) + 1
+        for sig, det in rec["violations"]:
+            V.append(Violation("C16", sig, dict(det, k=rec["k"], sig=rec["sig"]), rec["step"]))
+    if getattr(run, "enum_info", None):
+        facts["enum_info"] = run.enum_info
+    return V, facts
+
+
+CHECKS["C16"] = check_C16
